@@ -445,7 +445,8 @@ impl FiberIoUtils {
                 let processor = processor.clone();
                 async move { processor(path).await }
             })
-            .buffer_unordered(max_concurrent)
+            // `buffered`, not `buffer_unordered`: result i belongs to path i, whatever finishes first
+            .buffered(max_concurrent)
             .collect::<Vec<_>>()
             .await;
 
